@@ -57,7 +57,10 @@ RULE = ('random apps constructed through every public entry point (falcon.App, t
         'an explicit CompiledRouter() - on WSGI routes are then sometimes added on that router directly -, cors_enable=True, Request/Response subclasses); '
         'sink_before_static_route omitted / True / False; 0..8 registrations in random order, in one or two phases with requests after each phase - '
         'routes over 7 templates bound to resources with random subsets of the 22 methods + WEBSOCKET as on_<m>, on_<m>_alt, on_<m>_x (some attributes non-callable, '
-        'some resources shared by two routes with different suffix=), 7 overlapping sink regexes with mandatory named groups plus 12 whose named groups need not take part in a match '
+        'some resources shared by two routes with different suffix=); the RESOURCE OBJECT itself is an input: a plain instance, or (about half of the resources) an object whose truth value is False - '
+        'an empty dict subclass, an empty list subclass, a class with __len__ == 0, a class with __bool__ False - or changes between requests (a __bool__ flag / a list-subclass collection the harness '
+        'fills and empties before each request); a matched route is a matched route whatever bool(resource) is (the model receives the router\'s answer as an Option, so it cannot tell the kinds apart: '
+        'truthy and falsy resources must produce the same replies), 7 overlapping sink regexes with mandatory named groups plus 12 whose named groups need not take part in a match '
         '(optional groups, groups in one branch of an alternation, nested optional groups, a repeated group, an empty-text group, unnamed groups beside named ones, an inline flag), '
         'registered as str, compiled pattern, by keyword or with the default prefix; the kwargs a sink receives are compared key-by-key (None is distinguished from the empty string); 9 static routes '
         '(shared prefixes, with/without fallback_filename), both sink_before_static_route values; 6..10 requests per app: paths biased to registered templates, '
@@ -92,6 +95,10 @@ SINKS_OPT = [
     r'/(?:a/(?P<leaf>b)|(?P<top>a))?',                              # alternation of named groups inside an optional group
     r'(?i)/s(?P<tail>/x)?',                                         # inline flag + optional group
 ]
+# what kind of object is registered as the resource (the statement quantifies over resources; any object with on_* attributes is one):
+# truthy, falsy in four ways, or with a truth value that the harness changes between requests
+RES_KINDS = ['plain', 'plain', 'plain', 'plain', 'plain', 'empty_dict_subclass', 'empty_list_subclass', 'len_0', 'bool_false',
+             'bool_flag_toggling', 'list_collection_toggling']
 # public ways to construct an app (label -> how run() resolves it); 'sub:' = a user subclass that adds nothing
 ENTRY = {'wsgi': ['falcon.App', 'falcon.API', 'sub:falcon.App', 'sub:falcon.API'],
          'asgi': ['falcon.asgi.App', 'sub:falcon.asgi.App']}
@@ -136,19 +143,20 @@ class Reg:
     def __init__(self, sbs, ctor=None):
         self.sbs = sbs         # the configured order: the value given to the constructor, True (documented default) if none was given
         self.ctor = ctor or {} # how the app object was constructed: entry point, which options positionally / by keyword
-        self.resources = {}    # res id -> {'attrs': set((method, suffix)), 'noncallable': set((method, suffix))}
+        self.resources = {}    # res id -> {'attrs': set((method, suffix)), 'noncallable': set((method, suffix)), 'kind': what object the resource is (RES_KINDS)}
         self.routes = []       # (template, res id, suffix)
         self.sinks = []        # (pattern string, k) in registration order
         self.statics = []      # (prefix, dirkey, fallback, k) in registration order
         self.ops = []          # 's<k>' / 't<k>' in registration order
 
     def sig(self):
-        return (self.sbs, self.ctor.get('entry'), self.ctor.get('sbs_arg'), self.ctor.get('call'), tuple(sorted((r, tuple(sorted(map(str, d['attrs'])))) for r, d in self.resources.items())),
+        return (self.sbs, self.ctor.get('entry'), self.ctor.get('sbs_arg'), self.ctor.get('call'), tuple(sorted((r, d.get('kind'), tuple(sorted(map(str, d['attrs'])))) for r, d in self.resources.items())),
                 tuple(self.routes), tuple(self.sinks), tuple(self.statics))
 
     def describe(self):
         return {'sink_before_static_route': self.sbs, 'constructed_by': self.ctor.get('call'),
                 'resources': {r: sorted('on_' + m.lower() + ('_' + s if s else '') for m, s in d['attrs']) for r, d in self.resources.items()},
+                'resource_objects': {r: d.get('kind', 'plain') for r, d in self.resources.items()},
                 'noncallable': {r: sorted('on_' + m.lower() + ('_' + s if s else '') for m, s in d['noncallable']) for r, d in self.resources.items() if d['noncallable']},
                 'routes': list(self.routes), 'sinks': list(self.sinks), 'statics': list(self.statics), 'order_of_adds': list(self.ops)}
 
@@ -447,6 +455,35 @@ def _stack(ctx, root, asgi):
     class Res:
         pass
 
+    class DictRes(dict):
+        """an (empty) mapping that is its own resource"""
+
+    class ListRes(list):
+        """an (empty, or harness-filled) collection that is its own resource"""
+
+    class SizedRes:
+        def __len__(self):
+            return 0
+
+    class FlagRes:
+        truthy = False
+
+        def __bool__(self):
+            return self.truthy
+
+    RES_CLS = {'plain': Res, 'empty_dict_subclass': DictRes, 'empty_list_subclass': ListRes, 'len_0': SizedRes, 'bool_false': FlagRes,
+               'bool_flag_toggling': FlagRes, 'list_collection_toggling': ListRes}
+
+    def toggle(reg, objs):
+        """between requests: resources whose truth value is state change it (a flag flips, a collection is filled / emptied)"""
+        for rid, d in reg.resources.items():
+            if d['kind'] == 'bool_flag_toggling':
+                objs['res'][rid].truthy = rnd.random() < 0.5
+            elif d['kind'] == 'list_collection_toggling':
+                del objs['res'][rid][:]
+                if rnd.random() < 0.5:
+                    objs['res'][rid].append('item')
+
     sess = ctx.session(f'{stack} dispatch (App._get_responder + full {stack.upper()} call) = Dp model', 'dpdriver')
     loop = asyncio.new_event_loop() if asgi else None
 
@@ -480,12 +517,14 @@ def _stack(ctx, root, asgi):
                     c = (rnd.choice(ALLM), rnd.choice([None, 'alt', 'x']))
                     if c not in attrs:
                         nonc.add(c)
-                res = Res()
+                rkind = rnd.choice(RES_KINDS)
+                res = RES_CLS[rkind]()
+                ctx.count(f'{stack}_resource_object_{rkind}')
                 for m, s in attrs:
                     setattr(res, 'on_' + m.lower() + ('_' + s if s else ''), mk_responder(rid, m, s))
                 for m, s in nonc:
                     setattr(res, 'on_' + m.lower() + ('_' + s if s else ''), 'not callable')
-                reg.resources[rid] = {'attrs': attrs, 'noncallable': nonc}
+                reg.resources[rid] = {'attrs': attrs, 'noncallable': nonc, 'kind': rkind}
                 objs['res'][rid] = res
             sfxs = sorted({s for (_, s) in reg.resources[rid]['attrs'] if s}) or ['alt']
             suffix = rnd.choice(sfxs) if rnd.random() < 0.5 else None
@@ -689,7 +728,10 @@ def _stack(ctx, root, asgi):
                     kind = 'ws' if (asgi and rnd.random() < 0.15) else 'http'
                     if kind == 'ws':
                         method = 'GET'
-                    case = {'stack': stack, 'app': reg.describe(), 'request': {'kind': kind, 'method': method, 'path': path}}
+                    toggle(reg, objs)
+                    truth = {r: bool(o) for r, o in objs['res'].items() if reg.resources[r]['kind'] != 'plain'}
+                    case = {'stack': stack, 'app': reg.describe(), 'request': {'kind': kind, 'method': method, 'path': path},
+                            'bool(resource) at request time': truth}
                     exp_get = reg.expect('ws' if kind == 'ws' else 'get', method, path)
                     exp_full = reg.expect(kind, method, path)
                     sess.case(case)
@@ -725,6 +767,9 @@ def _stack(ctx, root, asgi):
                     ctx.seen((stack, reg.sig(), kind, method, path), bool(reg.routes or reg.sinks or reg.statics))
                     ctx.count(f'{stack}_{kind}_{okind}')
                     ctx.count(f'{stack}_expected_{exp_full["k"]}')
+                    if 'tmpl' in exp_get:
+                        rid_ = next(r for tm_, r, s_ in reg.routes if tm_ == exp_get['tmpl'])
+                        ctx.count(f'{stack}_request_to_a_route_whose_resource_is_' + ('truthy' if bool(objs['res'][rid_]) else 'FALSY') + f'_{reg.resources[rid_]["kind"]}')
                     if exp_full['k'] == 'sink':
                         pat = objs['sinkre'][exp_full['id']]
                         mt = pat.match(path)
